@@ -204,19 +204,29 @@ def run(ctx):
     # ---- T: serial numbers never influence predictions ---------------------------------------
     from .. import corpus, relations, runner
     rels = []
-    for name, text in (("3SGB-subset", corpus.test_pdb_text("3SGB-subset")), ("frag-1HPX-A20+12", corpus.fragment("1HPX", "A", 20, 12))):
+    dfr_a = "\n".join(ln for ln in corpus.test_pdb_text("4DFR").splitlines() if not (corpus.is_atom(ln) and ln[21] != "A")) + "\n"
+    inputs = [("3SGB-subset", corpus.test_pdb_text("3SGB-subset")), ("frag-1HPX-A20+12", corpus.fragment("1HPX", "A", 20, 12)),
+              ("4DFR-A (two conformations, ligand)", dfr_a)]
+    if ctx.thorough():
+        inputs += [("4DFR", corpus.test_pdb_text("4DFR")), ("1HPX", corpus.test_pdb_text("1HPX"))]
+    for name, text in inputs:
         base = runner.run(text, ["-q"])
         ctx.count()
         if base.exc is not None:
             continue
         lo, hi = py_range(5)
-        for mode in ("upper", "lower", "mixed", "negative"):
+        natoms = sum(1 for ln in text.splitlines() if corpus.is_atom(ln))
+        for mode in ("upper", "lower", "mixed", "negative", "descending", "hetero-descending"):
             out = []
             k = 0
             for ln in text.splitlines():
                 if corpus.is_atom(ln):
                     k += 1
-                    if mode == "upper":
+                    if mode == "descending":
+                        n = 90000 - k
+                    elif mode == "hetero-descending":
+                        n = (90000 - k) if ln.startswith("HETATM") else k
+                    elif mode == "upper":
                         n = 100000 + rng.randrange(0, 26 * 36 ** 4)
                     elif mode == "lower":
                         n = 100000 + 26 * 36 ** 4 + rng.randrange(0, 26 * 36 ** 4)
